@@ -5,6 +5,8 @@
 set -u
 M=$1; ID=$2; DEMODIR=$3
 NAME=$(basename $M)
+RUN=$(grep -o "^func Test[A-Za-z0-9_]*" $M/demo_test.go | sed 's/func //' | paste -sd'|')
+RUN="^(${RUN})\$"
 WT=/tmp/wt/eval-$NAME
 export GOFLAGS=-mod=mod GOPROXY=off GOSUMDB=off GOTOOLCHAIN=local
 git -C /repo worktree remove --force $WT >/dev/null 2>&1
@@ -13,12 +15,12 @@ cd $WT
 if ! git apply --check $M/patch.diff 2>/dev/null; then echo "$NAME: PATCH DOES NOT APPLY to current HEAD"; git -C /repo worktree remove --force $WT; exit 8; fi
 # demo on clean tree
 cp $M/demo_test.go $DEMODIR/zz_demo_test.go
-CLEAN=$( (go test -vet=off -count=1 -run 'Demo' ./$DEMODIR >/dev/null 2>&1 && echo pass) || echo fail)
+CLEAN=$( (go test -vet=off -count=1 -run "$RUN" ./$DEMODIR >/dev/null 2>&1 && echo pass) || echo fail)
 rm -f $DEMODIR/zz_demo_test.go
 git apply $M/patch.diff
 BASE=$( (go build ./... >/dev/null 2>&1 && go test -vet=off -count=1 ./... >/dev/null 2>&1 && echo pass) || echo FAIL)
 cp $M/demo_test.go $DEMODIR/zz_demo_test.go
-MUT=$( (go test -vet=off -count=1 -run 'Demo' ./$DEMODIR >/dev/null 2>&1 && echo pass) || echo fail)
+MUT=$( (go test -vet=off -count=1 -run "$RUN" ./$DEMODIR >/dev/null 2>&1 && echo pass) || echo fail)
 rm -f $DEMODIR/zz_demo_test.go
 cd /verif
 OUT=$(VERIF_REPO=$WT VERIF_EVIDENCE_DIR=/tmp/wt/evidence-$NAME timeout 1500 ./check $ID 2>/dev/null)
